@@ -16,7 +16,7 @@ MANIFEST = {
             "built-ins included), and its result is closed again; plus the mechanisms: capture by value of every "
             "referenced bound name and nothing else, lookup order, positional binding, arity classes of the documented "
             "shape, binding never indexes past the arguments for ANY parameter list.  Tied to the code by the EVAL "
-            "correspondence on the context-grammar programs; the law itself re-checked on the implementation",
+            "correspondence on the context-grammar programs; the law itself re-checked on the implementation; round 7: INPUTS family on the implementation (12 closures that captured `inputs` x 41 contexts that re-bind `inputs`, with controls) - finding F9 (a captured inputs was overridden by the call site's) was shown on the faithful model while the defect stood and is repaired in /repo dc2b363; Eval.call_passed follows the repaired code (C04_f9_witness_repaired); C04_call_site_independent_any_inputs_full (no same-inputs hypothesis) is kept as a Prop",
     "note": "trusted: Coq kernel + vm_compute; transcription of collect_free_variables / Expr::Lambda / "
             "FunctionDef::call / evaluate_ast (validated by correspondence); built-ins outside the transcribed set are "
             "Unmodelled in the theorem's evaluator; exclusions of the theorem = open findings F8 (self name before "
